@@ -795,6 +795,111 @@ type point struct {
 	summary string
 }
 
+// runEnsureExists: litestream is started the way the daemon starts it (EnsureExists, then Open) over a
+// database path at which the application has (a) a database with rows, (b) a file it has just created and
+// not written yet (zero bytes), (c) nothing — while the replica holds an EARLIER backup of another
+// database. Only in (c) may the backup be restored; in (a) and (b) the application's file is the source
+// and what the application does next must read exactly as in the litestream-free control (seed C14e).
+func runEnsureExists(rc *Recorder, base string, seed int64) {
+	rng := NewRand(seed*7919 + 17)
+	for _, variant := range []string{"existing-rows", "zero-length", "missing"} {
+		dir := filepath.Join(base, "ensure-"+variant)
+		os.RemoveAll(dir)
+		os.MkdirAll(dir, 0o755)
+		cfg := randConfig(rng)
+		w := &world{dir: dir, path: filepath.Join(dir, "db"), replica: filepath.Join(dir, "replica"), cfg: cfg}
+		replay := map[string]any{"part": "ensure-exists", "variant": variant, "seed": seed}
+		fail := func(sig, detail string) { rc.violate(sig, detail, replay) }
+		// an earlier life of the path: rows 'old-*', replicated, litestream closed, database removed
+		if err := w.openApp(true); err != nil {
+			fail("harness/setup", err.Error())
+			continue
+		}
+		for i := 0; i < 3; i++ {
+			_, _ = w.app.Exec("INSERT INTO t(v, n) VALUES (?, ?)", []byte(fmt.Sprintf("old-%d", i)), i)
+		}
+		w.ldb = w.newLitestream()
+		ctx := context.Background()
+		if err := w.ldb.Open(); err != nil {
+			fail("harness/setup", err.Error())
+			continue
+		}
+		if err := w.ldb.SyncAndWait(ctx); err != nil {
+			fail("harness/setup", err.Error())
+			continue
+		}
+		_ = w.ldb.Close(ctx)
+		w.app.Close()
+		for _, sfx := range []string{"", "-wal", "-shm"} {
+			os.Remove(w.path + sfx)
+		}
+		os.RemoveAll(filepath.Join(dir, ".db-litestream"))
+		// the application's new life at the path
+		var app *sql.DB
+		switch variant {
+		case "existing-rows":
+			if err := w.openApp(true); err != nil {
+				fail("harness/setup", err.Error())
+				continue
+			}
+			app = w.app
+			_, _ = app.Exec("INSERT INTO t(v, n) VALUES (?, 100)", []byte("new-0"))
+		case "zero-length":
+			f, err := os.Create(w.path) // what opening a connection before the first statement leaves
+			if err != nil {
+				fail("harness/setup", err.Error())
+				continue
+			}
+			f.Close()
+		}
+		ldb := w.newLitestream()
+		e1 := ldb.EnsureExists(ctx)
+		if variant != "existing-rows" {
+			first := variant == "zero-length"
+			if variant == "missing" {
+				first = false // the restored backup has the schema
+			}
+			if err := w.openApp(first); err != nil {
+				if variant == "zero-length" {
+					fail("C14/source-replaced-by-restore", "EnsureExists over a zero-length database file: the application can no longer initialise its database: "+err.Error())
+				} else {
+					fail("harness/setup", err.Error())
+				}
+				continue
+			}
+			app = w.app
+		}
+		e2 := ldb.Open()
+		for i := 0; i < 4; i++ {
+			_, _ = app.Exec("INSERT INTO t(v, n) VALUES (?, ?)", []byte(fmt.Sprintf("new-%d", i+1)), 101+i)
+		}
+		_ = ldb.Sync(ctx)
+		var nOld, nNew int
+		_ = app.QueryRow("SELECT COUNT(*) FROM t WHERE CAST(v AS TEXT) LIKE 'old-%'").Scan(&nOld)
+		_ = app.QueryRow("SELECT COUNT(*) FROM t WHERE CAST(v AS TEXT) LIKE 'new-%'").Scan(&nNew)
+		ok, why := integrityOK(app)
+		_ = ldb.Close(ctx)
+		app.Close()
+		rc.cw.Classes["ensure-exists/"+variant]++
+		wantOld, wantNew := 0, 4
+		if variant == "existing-rows" {
+			wantNew = 5
+		}
+		if variant == "missing" {
+			wantOld = 3
+		}
+		if e1 != nil || e2 != nil || !ok || nOld != wantOld || nNew != wantNew {
+			sig := "C14/source-replaced-by-restore"
+			if variant == "missing" {
+				sig = "C14/ensure-exists-did-not-restore-a-missing-database"
+			}
+			fail(sig, fmt.Sprintf("variant %s: EnsureExists=%v Open=%v integrity=%v (%s); rows of the earlier backup %d (want %d), rows the application wrote %d (want %d)",
+				variant, e1, e2, ok, why, nOld, wantOld, nNew, wantNew))
+		}
+		os.RemoveAll(dir)
+	}
+}
+
 func runHistory(rc *Recorder, base string, seed int64, index int, steps int) error {
 	rng := NewRand(seed*1000003 + int64(index))
 	cfg := randConfig(rng)
@@ -1036,6 +1141,9 @@ func main() {
 		if err := runStatementReplay(rc, *stmtsPath, base, NewRand(*seed)); err != nil {
 			rc.violations = append(rc.violations, ImplViolation{Signature: "harness/statement-replay", Detail: err.Error()})
 		}
+	}
+	if *only == -1 && *shard == 0 {
+		runEnsureExists(rc, base, *seed)
 	}
 	if *only == -1 && *scen != 0 {
 		runFaultScenarios(rc, base, *seed, *shard, *shards, *scen, -1)
